@@ -20,6 +20,7 @@ pub mod c15;
 pub mod c16;
 pub mod c18;
 pub mod c19;
+pub mod c20;
 
 use common::*;
 use serde_json::Value;
@@ -54,6 +55,7 @@ pub fn modules() -> Vec<Module> {
         module!("C16", c16),
         module!("C18", c18),
         module!("C19", c19),
+        module!("C20", c20),
     ]
 }
 
